@@ -29,12 +29,36 @@ func nodeCalls(p *Prog, f *Fn, n ast.Node, match func(fn *types.Func, c *ast.Cal
 func failureReaches(fl *Flow, callPt Pt, goal func(ast.Node) bool) bool {
 	// find the condition node following the call in the same block with two successors
 	b := callPt.B
+	everything := func() bool { return fl.Reach([]Pt{After(callPt)}, goal, nil).Found }
 	if len(b.Succs) != 2 || len(b.Nodes) == 0 {
-		return true // cannot identify the error branch: conservative
+		return everything() // the error of this call is not tested at the end of its block: its failure flows on
 	}
 	cond, ok := b.Nodes[len(b.Nodes)-1].(*ast.BinaryExpr)
 	if !ok || cond.Op != token.NEQ || types.ExprString(cond.Y) != "nil" {
 		return true
+	}
+	// the tested variable must be the one this call's error was assigned to, and nothing in between may overwrite it
+	info := fl.F.Pkg.TypesInfo
+	tested := identObj(info, cond.X)
+	if as, isAs := fl.node(callPt).(*ast.AssignStmt); isAs && tested != nil && callPt.I < len(b.Nodes)-1 {
+		assigned := false
+		for _, l := range as.Lhs {
+			if identObj(info, l) == tested {
+				assigned = true
+			}
+		}
+		if !assigned {
+			return everything()
+		}
+		for _, n := range b.Nodes[callPt.I+1 : len(b.Nodes)-1] {
+			if as2, ok := n.(*ast.AssignStmt); ok {
+				for _, l := range as2.Lhs {
+					if identObj(info, l) == tested {
+						return everything() // the error is overwritten before it is looked at
+					}
+				}
+			}
+		}
 	}
 	res := fl.Reach([]Pt{{b.Succs[0], 0}}, goal, nil)
 	return res.Found
